@@ -168,8 +168,21 @@ pub fn lib(ctx: &Ctx) -> Stats {
         let mut rng = Rng::keyed(ctx.seed, "c08.lib", idx);
         let (recs, alt, cfg) = gen_case(&mut rng, false);
         let sc = Scratch::new(ctx, "c08");
-        let inp = sc.write("in.fa", &ser::to_fasta(&recs, &SerOpts::plain()));
-        let altp = alt.as_ref().map(|a| sc.write("alt.fasta", &ser::to_fasta(a, &SerOpts::plain())));
+        // the vector input and the counting input may be of different format families (.fa vs .fq)
+        let main_fq = recs.iter().all(|r| !r.seq.is_empty()) && rng.chance(1, 3);
+        let inp = if main_fq { sc.write("in.fq", &ser::to_fastq(&recs, &SerOpts::plain())) } else { sc.write("in.fa", &ser::to_fasta(&recs, &SerOpts::plain())) };
+        let altp = alt.as_ref().map(|a| {
+            if a.iter().all(|r| !r.seq.is_empty()) && rng.chance(1, 2) {
+                sc.write("alt.fastq", &ser::to_fastq(a, &SerOpts::plain()))
+            } else {
+                sc.write("alt.fasta", &ser::to_fasta(a, &SerOpts::plain()))
+            }
+        });
+        if let Some(a) = &altp {
+            if a.ends_with(".fastq") != main_fq {
+                st.class("counting-input-of-other-format-family");
+            }
+        }
         let count_recs: &[Rec] = alt.as_deref().unwrap_or(&recs);
         let case = |cfg: &CovCfg| {
             let mut j = Json::obj().set("cfg", cfg.json()).set("records", super::oligo::recs_json(&recs));
@@ -259,8 +272,15 @@ pub fn cli(ctx: &Ctx) -> Stats {
         let (recs, alt, mut cfg) = gen_case(&mut rng, true);
         cfg.mem_gb = rng.usize(6, 128) as f64;
         let sc = Scratch::new(ctx, "c08c");
-        let inp = sc.write("in.fa", &ser::to_fasta(&recs, &SerOpts::plain()));
-        let altp = alt.as_ref().map(|a| sc.write("alt.fasta", &ser::to_fasta(a, &SerOpts::plain())));
+        let main_fq = recs.iter().all(|r| !r.seq.is_empty()) && rng.chance(1, 3);
+        let inp = if main_fq { sc.write("in.fq", &ser::to_fastq(&recs, &SerOpts::plain())) } else { sc.write("in.fa", &ser::to_fasta(&recs, &SerOpts::plain())) };
+        let altp = alt.as_ref().map(|a| {
+            if a.iter().all(|r| !r.seq.is_empty()) && rng.chance(1, 2) {
+                sc.write("alt.fastq", &ser::to_fastq(a, &SerOpts::plain()))
+            } else {
+                sc.write("alt.fasta", &ser::to_fasta(a, &SerOpts::plain()))
+            }
+        });
         let out = sc.path("outdir");
         let preset = match cfg.delim.as_str() {
             "," => "csv",
